@@ -3,7 +3,9 @@ package props
 import (
 	"fmt"
 	"os"
+	"sync"
 	"testing"
+	"time"
 
 	"github.com/alpacahq/marketstore/v4/executor"
 	"github.com/alpacahq/marketstore/v4/replication"
@@ -23,9 +25,35 @@ func TestC25(t *testing.T) {
 		defer os.RemoveAll(mroot)
 		defer os.RemoveAll(rroot)
 		send := &recSender{}
-		master := hx.NewInst(mroot, hx.InstOpts{Sender: send})
-		defer master.Close()
-		replica := hx.NewInst(rroot, hx.InstOpts{})
+		// one case in three: 2-3 concurrent writers on a master with the background WAL writer, so that
+		// a flushed transaction group carries several requests ("any grouping of writes")
+		nwriters := 1
+		mopts := hx.InstOpts{Sender: send}
+		if rapid.IntRange(0, 2).Draw(t, "grouped") == 0 {
+			nwriters = rapid.IntRange(2, 3).Draw(t, "writers")
+			mopts.WALRefresh = time.Duration(rapid.IntRange(1, 4).Draw(t, "walMs")) * time.Millisecond
+			mopts.PrimaryRefresh = time.Duration(rapid.IntRange(4, 30).Draw(t, "ckptMs")) * time.Millisecond
+			mopts.RotateInterval = 2
+		}
+		master := hx.NewInst(mroot, mopts)
+		masterClosed := false
+		defer func() {
+			if !masterClosed {
+				master.Close()
+			}
+		}()
+		type prepared struct {
+			csm    io.ColumnSeriesMap
+			anyVar bool
+		}
+		var reqs []prepared
+		// (the flag that tells writers whether a background WAL writer runs is process-wide:
+		// master and replica live in one process here, so both run in the same mode)
+		ropts := hx.InstOpts{}
+		if nwriters > 1 {
+			ropts = hx.InstOpts{WALRefresh: 2 * time.Millisecond, PrimaryRefresh: 20 * time.Millisecond, RotateInterval: 2}
+		}
+		replica := hx.NewInst(rroot, ropts)
 		defer replica.Close()
 		replayer := replication.NewReplayer(executor.ParseTGData, replica.W.WriteCSM, rroot)
 
@@ -46,7 +74,7 @@ func TestC25(t *testing.T) {
 				hasVarCoarse = true
 			}
 		}
-		nreq := rapid.IntRange(1, 6).Draw(t, "nrequests")
+		nreq := rapid.IntRange(1, 6*nwriters).Draw(t, "nrequests")
 		mixedTG := false
 		for q := 0; q < nreq; q++ {
 			// one request names 1-2 buckets; with two buckets they may be of different record type
@@ -76,14 +104,47 @@ func TestC25(t *testing.T) {
 			if len(types) == 2 {
 				mixedTG = true
 			}
-			if err := master.W.WriteCSM(csm, anyVar); err != nil {
-				t.Fatalf("master write: %v", err)
-			}
+			reqs = append(reqs, prepared{csm, anyVar})
+		}
+		ntg, multiReqTG := 0, false
+		apply := func() {
 			for _, tg := range send.take() {
+				ntg++
 				if err := replayer.Replay(tg); err != nil {
 					t.Fatalf("replica cannot apply a transaction group: %v", err)
 				}
 			}
+		}
+		if nwriters == 1 {
+			for _, r := range reqs {
+				if err := master.W.WriteCSM(r.csm, r.anyVar); err != nil {
+					t.Fatalf("master write: %v", err)
+				}
+				apply()
+			}
+		} else {
+			var wg sync.WaitGroup
+			errs := make([]error, nwriters)
+			for w := 0; w < nwriters; w++ {
+				wg.Add(1)
+				go func(w int) {
+					defer wg.Done()
+					for i := w; i < len(reqs); i += nwriters {
+						if err := master.W.WriteCSM(reqs[i].csm, reqs[i].anyVar); err != nil {
+							errs[w] = err
+							return
+						}
+					}
+				}(w)
+			}
+			wg.Wait()
+			for _, err := range errs {
+				if err != nil {
+					t.Fatalf("master write (concurrent): %v", err)
+				}
+			}
+			apply()
+			multiReqTG = ntg < len(reqs)
 		}
 		for _, b := range bs {
 			m, err := master.QueryAll(b)
@@ -132,6 +193,10 @@ func TestC25(t *testing.T) {
 		cls := []string{fmt.Sprintf("buckets=%d", nb)}
 		if mixedTG {
 			cls = append(cls, "TG-mixing-fixed-and-variable")
+		}
+		cls = append(cls, fmt.Sprintf("writers=%d", nwriters))
+		if multiReqTG {
+			cls = append(cls, "TG-carrying-several-requests")
 		}
 		rec.Case(nt, cls...)
 	})
